@@ -1,4 +1,4 @@
 CONSTANTS Codes <- CodesT SizeVals = {0, 1, 4, 5, 7} MRows = 1 MCols = 3 Gfxs = {35, 32} UnreprSets <- Unr
 SPECIFICATION Spec
-INVARIANTS ExportShape ExportChars ExportExact TableShape TableRegion TableChars
+INVARIANTS ExportShape ExportChars ExportExact TableShape TableRegion TableChars AcceptSound
 CHECK_DEADLOCK FALSE
